@@ -37,4 +37,10 @@ OBLIGATIONS = [
   Ob('C13.break_3_hits', H, 'h_break', tier='extended', unwind=10, backend='kissat', defines={'NF': 3, 'NV': 5, 'BREAK_HITS': 1}, max_alloc=64, mem_gb=20, unwindset=br_bounds(3, 5),
      bound='reachability twin of C13.break_3: its vacuity witness is reachable only through the edge-breaking branch', covers='CornerTable::BreakNonManifoldEdges'),
 ]
-META = {}
+META = {
+  'explanation': 'CornerTable::Init = ComputeOppositeCorners; BreakNonManifoldEdges; ComputeVertexCorners. Each phase is decided from an arbitrary state satisfying the post-condition of the previous phase (predicate opposite_ok_at in harness/C13/ct.cc), so the phase obligations compose to Init for the stated sizes; init_2 decides the composition directly on two triangles.',
+  'assumptions': ['phase 2 and 3 pre-state: opposite is a symmetric pairing of corners of two different non-degenerate non-mirrored faces across a shared oppositely oriented edge (= asserted post-condition of phase 1 / phase 2)',
+                  'libstdc++ vector growth replaced by contract models: resize within reserved capacity = append (verif_vecmodel_fill.h), push_back growth of the local sink_vertices vector = one static pool (verif_vecmodel_grow.h), push_back on harness-reserved member vectors never reallocates (asserted by an unreachable-stub)',
+                  'vertex ids < 4 (5 in the thorough tier), 2 faces (3 in the thorough tier)'],
+  'outside': ['tables with more than 3 faces (the seeded defects C13-a/b need 4-5 faces)', 'MeshAttributeCornerTable', 'CreateCornerTableFromPositionAttribute / FromAllAttributes', 'valence cache'],
+}
